@@ -7,6 +7,7 @@ import AbraModel.Drv.Util
    `a<k>:p` alias, `m` missing file; statements (no spaces):
    `l<name>.<id>;` let, `u<name>;` use, `q<alias>.<name>;` qualified use, `{…}` block,
    `f<name>.<id>{…}` for, `m<name>.<id>{…}` match arm, `p<name>.<id>{…}` lambda parameter,
+   `M<a<name>.<id>{…}n{…}…>` multi-arm match (arm binding a name / binding nothing), `I{…}{…}` if/else,
    `x<prefix|_>.<type>.<variant>;` qualified variant pattern, `y<prefix|_>.<type>.<variant>;` variant expression
    answer: `ok <file>.p=<tags>;<file>.t=<tags>;…` or `diag clash=<names> unres=<file>.<p|t>.<index>,… bad=<n>` -/
 namespace Abra.Drv
@@ -55,6 +56,34 @@ private def parseStmts : Nat → List Char → Option (List (Stmt String) × Lis
         | none => none
         | some (ss, rest2) => some (s :: ss, rest2)
 
+private def parseArms : Nat → List Char → Option (List (Option (String × Nat) × List (Stmt String)) × List Char)
+  | 0, _ => none
+  | fuel + 1, cs =>
+    match cs with
+    | '>' :: _ => some ([], cs)
+    | 'n' :: '{' :: r =>
+      match parseStmts fuel r with
+      | some (body, '}' :: r2) =>
+        match parseArms fuel r2 with
+        | some (arms, r3) => some ((none, body) :: arms, r3)
+        | none => none
+      | _ => none
+    | 'a' :: r =>
+      let (x, r1) := takeName r
+      match r1 with
+      | '.' :: r2 =>
+        match takeNat r2 with
+        | some (id, '{' :: r3) =>
+          match parseStmts fuel r3 with
+          | some (body, '}' :: r4) =>
+            match parseArms fuel r4 with
+            | some (arms, r5) => if x.isEmpty then none else some ((some (x, id), body) :: arms, r5)
+            | none => none
+          | _ => none
+        | _ => none
+      | _ => none
+    | _ => none
+
 private def parseBinder (fuel : Nat) (cs : List Char)
     (mk : String → Nat → List (Stmt String) → Stmt String) : Option (Stmt String × List Char) :=
   let (x, r1) := takeName cs
@@ -97,6 +126,17 @@ private def parseStmt : Nat → List Char → Option (Stmt String × List Char)
     | '{' :: r =>
       match parseStmts fuel r with
       | some (body, '}' :: r2) => some (Stmt.block body, r2)
+      | _ => none
+    | 'M' :: '<' :: r =>
+      match parseArms fuel r with
+      | some (arms, '>' :: r2) => some (Stmt.marms arms, r2)
+      | _ => none
+    | 'I' :: '{' :: r =>
+      match parseStmts fuel r with
+      | some (a, '}' :: '{' :: r2) =>
+        match parseStmts fuel r2 with
+        | some (b, '}' :: r3) => some (Stmt.ifelse a b, r3)
+        | _ => none
       | _ => none
     | 'x' :: r => parseVariantUse r Stmt.pmatch
     | 'y' :: r => parseVariantUse r Stmt.euse
